@@ -255,6 +255,11 @@ def write_replay(ctx, name, payload):
 
 def finish(ctx, assumptions=None):
     cov = ctx.coverage
+    if cov.get("discharged") == 0:
+        # the proof did not check on this tree: report the exploration counts only
+        cov["proof_checked"] = False
+        cov.pop("discharged", None)
+        cov.pop("obligations", None)
     ev = {
         "property_id": ctx.prop,
         "tier": ctx.tier,
